@@ -328,6 +328,33 @@ def r_one_link(ck: Checker) -> None:
     ck.need(n >= 10, f"Comparison constructor calls found ({n})")
 
 
+def r_chain_places(ck: Checker) -> None:
+    """comparison chains are split wherever a later pass can meet them: bodies, conditions of body conditional literals
+    and aggregate elements, and the conditions of head elements (domain rules copy those into rule bodies)"""
+    ec = ck.func("normalize:expand_comparisons")
+    stm = ec.params()[0]
+    it = ck.interp(ec, Pins.of(vals={f"{stm}.ast_type": "ASTType.Rule"}))
+    ups = [c for c in attr_calls(ec, "update") if unparse(c.func.value) == stm and it.reachable(c)]  # type: ignore[attr-defined]
+    ck.need(len(ups) >= 1, "expand_comparisons rebuilds rules with update(...)")
+    head_kw = [kwarg(c, "head") for c in ups if kwarg(c, "head") is not None]
+    helper = None
+    if head_kw and isinstance(head_kw[0], ast.Call):
+        helper = ck.prg.funcs.get(ck.prg.resolve_callee(ec, head_kw[0].func) or "")
+    for kind, cond in (("Aggregate", "condition"), ("Disjunction", "condition"), ("HeadAggregate", "condition.condition")):
+        ok = False
+        detail = "the head of a rule is not touched by expand_comparisons"
+        if helper is not None:
+            h = helper.params()[0]
+            ith = ck.interp(helper, Pins.of(vals={f"{h}.ast_type": f"ASTType.{kind}"}))
+            calls = [c for c in resolved_calls(ck.prg, helper, "ngo.normalize:_normalize_operators_condition") if ith.reachable(c)]
+            args = {unparse(c.args[0]) for c in calls}
+            orgs = {st.origin.get(unparse(c.args[0]).split(".")[0], "") for c in calls for st in ith.states(c)}
+            ok = bool(calls) and all(a.endswith("." + cond) and not a.endswith(".condition." + cond) for a in args) and orgs == {f"{h}.elements[*]"}
+            detail = f"for a {kind} head _normalize_operators_condition is applied to {sorted(args)} of {sorted(orgs)}"
+        ck.add(f"chains in the conditions of {kind} head elements are split", ok, ec, ups[0], detail,
+               "`{ p(X,Y) : d(X), d(Y), 1 < X < Y }.`: DomainPredicates copies the condition into the body of __dom_p, where symmetry asserts one-link comparisons (AssertionError) and math / cleanup read guards[0] only")
+
+
 def r_exline(ck: Checker) -> None:
     func = ck.func("normalize:exline_term")
     it = ck.interp(func)
@@ -402,6 +429,7 @@ RULES = RULES_EXTRA + [
     Rule("C05.TABLE.operators", P + ("C14", "C13"), r_operator_tables),
     Rule("C05.TABLE.bounds", P, r_bounds_table),
     Rule("C05.chain-split", P, r_chain_split),
+    Rule("C05.chain-places", P + ("C03", "C11", "C14"), r_chain_places),
     Rule("C05.TABLE.equality", P, r_equality_table),
     Rule("C05.C4.local-only", P, r_local_only),
     Rule("C05.C6.inline-rule", P + ("C02",), r_inline_rule),
